@@ -1,6 +1,6 @@
 (* C02  Terminal statuses (Completed, Failed, Cancelled) are final.  Statements only. *)
 From Coq Require Import List NArith ZArith String Bool.
-From DT Require Import GenStatus GenEvent FsmTypes GenFsm Fsm Machine FsmFacts MachineFacts C02Proofs.
+From DT Require Import GenStatus GenEvent GenMsgType FsmTypes GenFsm Fsm Machine View Caches Msg Node FsmFacts MachineFacts C02Proofs NodeFacts NodeProps.
 Import ListNotations.
 
 Theorem C02_finality_is_the_three_terminal_statuses :
@@ -29,3 +29,15 @@ Theorem C02_once_terminal_always_frozen :
     m_chan m2 = m_chan m1 /\ (forall x, In x o2 -> exists e, x = ODropped e).
 Proof. exact once_terminal_always_frozen. Qed.
 Print Assumptions C02_once_terminal_always_frozen.
+
+(* node level: over EVERY history of inputs -- API calls (close, pause, resume, restart, vouchers,
+   validation updates), messages from any peer, transport callbacks, process restarts, with any
+   validator, send and transport outcomes -- a channel whose record is terminal keeps exactly
+   that record *)
+Theorem C02_terminal_frame_history :
+  forall l n k cs,
+    lookup k (n_chans n) = Some cs ->
+    is_final (c_status (m_chan (cs_m cs))) = true ->
+    exists cs', lookup k (n_chans (run_history n l)) = Some cs' /\ m_chan (cs_m cs') = m_chan (cs_m cs).
+Proof. exact terminal_frame_history. Qed.
+Print Assumptions C02_terminal_frame_history.
